@@ -5,7 +5,7 @@ from hypothesis import strategies as st
 from ..core import Clause, Discard, Violation, call, expect_raises, require
 from ..oracles import si_ref
 from ..strategies import (log_floor_configs, with_config, bank_specs, build_bank, build_si, build_window, gabor_degenerate, gammatone_degenerate,
-                          make_signal, si_shift_bound, si_specs, signal_specs)
+                          make_signal, si_shift_bound, si_specs, signal_specs, SIGNAL_KINDS, EXTREME_KINDS)
 
 PROPERTY = "C03"
 LEVEL = "exploration"
@@ -18,6 +18,8 @@ ASSUMPTIONS = [
     "frame shift below the longest filter's one-sided support under both readings (from sample 0 and from the centre)",
     "numpy FFT path only; DFT size recomputed from the documented rule (max(frame_length, 2*rate/min bandwidth), power of two when padded) because the impulse response aliases into that buffer",
     "a column is accepted if it matches the reference for one alignment in {-1,0,+1} samples ('centred on' is ambiguous by one sample for an even span)",
+    "a configured LOG_FLOOR_VALUE that rounds to zero in the signal's dtype (1e-9 in half precision) is not generated: the floor of the statement is then not a value of the result's dtype",
+    "signals near the ends of the exponent range (samples of 2**+-600 in double, 2**+-60 in single) are generated; a case is discarded when (max|x| sum|h|)^p or the reference itself exceeds a quarter of the dtype's largest value (the statement's value is then not representable)",
     "tolerance = 1e-7 of the (linear) column maximum + 1e-10 of the matrix maximum + 1e-13 of the coefficient's upper bound sum|w|(max|x| sum|h|)^p for the double-precision computation, plus the rounding of the stored value to the output dtype (2e-7 float32, 2e-3 float16, relative)",
 ]
 
@@ -92,8 +94,9 @@ def check_definition(case):
     labels.append("N>=one-DFT-block" if blocks else "N<one-DFT-block")
     if K == 0:
         return {"nontrivial": False, "labels": labels + ["noframes"]}
-    require(np.all(np.isfinite(got.astype(np.float64))), "non-finite coefficients")
     p = 2 if spec["use_power"] else 1
+    if spec["use_log"] and float(DT[dt](config.LOG_FLOOR_VALUE)) == 0.0:
+        raise Discard()
     xf = np.asarray(x, dtype=np.float64)
     g64 = got.astype(np.float64)
     floor = config.LOG_FLOOR_VALUE
@@ -109,6 +112,12 @@ def check_definition(case):
         else:
             d = 0
         cols.append(("filter %d" % i, g, t0, d))
+    with np.errstate(all="ignore"):
+        reach = float(np.power(np.float64(np.max(np.abs(xf))) * max(float(np.sum(np.abs(g))) for _, g, _, _ in cols), p)) if len(xf) else 0.0
+    if not np.isfinite(reach) or reach > 0.25 * float(np.finfo(DT[dt]).max):
+        # |signal * h|^p itself may leave the range of the dtype (huge samples in power mode) before any window
+        # weight (possibly 0) is applied: the statement's value is not representable, nothing to compare
+        raise Discard()
     refs = {}
     gmax = 0.0
     for c, (name, g, t0, d) in enumerate(cols):
@@ -118,6 +127,10 @@ def check_definition(case):
                 ref = np.maximum(ref, floor)
             refs[c, delta] = ref
         gmax = max(gmax, float(np.max(np.abs(refs[c, 0]))))
+    if not np.isfinite(gmax) or gmax > 0.25 * float(np.finfo(DT[dt]).max):
+        # the defined value itself leaves the range of the dtype (huge samples in power mode): nothing to compare
+        raise Discard()
+    require(np.all(np.isfinite(got.astype(np.float64))), "non-finite coefficients (the time-domain reference is finite, at most {!r})", gmax)
     for c, (name, g, t0, d) in enumerate(cols):
         best = None
         for delta in (0, -1, 1):
@@ -174,7 +187,7 @@ def _cases(draw, dtypes=("f64", "f64", "f32", "f16", "ld")):
         n = draw(st.sampled_from([4097, 8193]))
     prior = draw(st.one_of(st.none(), st.none(), st.fixed_dictionaries({
         "sig": signal_specs(st.integers(0, 300)), "chunked": st.booleans()})))
-    return {"comp": comp, "dtype": draw(st.sampled_from(list(dtypes))), "sig": draw(signal_specs(st.just(n))), "prior": prior,
+    return {"comp": comp, "dtype": draw(st.sampled_from(list(dtypes))), "sig": draw(signal_specs(st.just(n), SIGNAL_KINDS + EXTREME_KINDS)), "prior": prior,
             "config": draw(log_floor_configs()), "sibling": draw(st.sampled_from([None, None, "before", "after"]))}
 
 
